@@ -35,6 +35,7 @@ func genExtra(g *fw.GenCtx) {
 		g.Emit("extra", xcase{Fam: "multi", A: a, B: a + 8})
 	}
 	g.Emit("extra", xcase{Fam: "argmsg"})
+	g.Emit("extra", xcase{Fam: "verdicts"})
 	for a := 0; a < len(cliTagSets); a++ {
 		g.Emit("extra", xcase{Fam: "tags", A: a})
 	}
@@ -121,6 +122,8 @@ func runExtra(oc *fw.Outcome, xc xcase) {
 		}
 	case "argmsg":
 		runArgMsg(oc)
+	case "verdicts":
+		runVerdicts(oc)
 	case "tags":
 		runTags(oc, xc.A)
 	}
@@ -543,5 +546,240 @@ func runTags(oc *fw.Outcome, ci int) {
 	// the exit status: every test that runs passes
 	if rr.exit != 0 {
 		oc.Violate("tags:exit", fmt.Sprintf("exit status %d although every test passed or was skipped (%s)", rr.exit, opt), detail)
+	}
+}
+
+// ---- verdicts -----------------------------------------------------------------------------------
+// Hand-written tests whose verdict per scope follows from the documentation: sequences of
+// testing.call_subroutine, multi-scope tests with runtime errors, further assert.is_json operands,
+// constructs under --coverage (every file is run without and with --coverage: same verdicts), and
+// pairs (A pollutes shared state, B observes it) run as [A,B], [B,A] and [B]: B's verdict must not move.
+
+const vMain = `backend be1 { .host = "127.0.0.1"; .port = "80"; }
+table dict { "shape": "square", }
+table other_dict { "k": "v", }
+sub helper { set req.http.Helper = "called"; }
+sub decide_pass { if (req.http.Bypass) { return(pass); } }
+sub deny { error 403 "Forbidden"; }
+sub normalize { set req.http.Norm = "1"; }
+sub sw_nodefault {
+  set req.http.Out = "init";
+  switch (req.http.Kind) {
+  case "a":
+    set req.http.Out = "A";
+    break;
+  case "b":
+    set req.http.Out = "B";
+    break;
+  }
+  set req.http.Done = "1";
+}
+sub sw_fall {
+  switch (req.http.Kind) {
+  case "a":
+    set req.http.Out = "A";
+    fallthrough;
+  case "b":
+    set req.http.Out = req.http.Out "B";
+    break;
+  default:
+    set req.http.Out = "D";
+    break;
+  }
+}
+sub nested_if {
+  if (req.http.Kind == "a") {
+    if (req.http.Sub) { set req.http.Out = "a-sub"; } else { set req.http.Out = "a"; }
+  } else if (req.http.Kind == "b") {
+    set req.http.Out = "b";
+  }
+  set req.http.Done = "1";
+}
+sub vcl_recv {
+#FASTLY RECV
+  set req.http.Color = table.lookup(dict, "color", "none");
+  set req.http.Shape = table.lookup(dict, "shape", "none");
+  call helper;
+  return(lookup);
+}
+sub vcl_fetch {
+#FASTLY FETCH
+  set beresp.ttl = 1h;
+  return(deliver);
+}
+sub vcl_deliver {
+#FASTLY DELIVER
+  set resp.http.X-D = "1";
+  return(deliver);
+}
+`
+
+type vtest struct {
+	name string
+	ann  string // annotations (default: // @scope: recv)
+	body string
+	// want per result entry: "SCOPE=verdict" (verdict: pass | fail | skip)
+	want []string
+}
+
+func vt(name, body string, want ...string) vtest {
+	if len(want) == 0 {
+		want = []string{"RECV=pass"}
+	}
+	return vtest{name: name, ann: "// @scope: recv", body: body, want: want}
+}
+
+func verdictTests() []vtest {
+	ts := []vtest{
+		// the state follows the LAST call
+		vt("seq_state_follows_last_call", `set req.http.Bypass = "1"; testing.call_subroutine("decide_pass"); assert.state(pass); testing.call_subroutine("normalize"); assert.equal(req.http.Norm, "1"); assert.not_state(pass);`),
+		vt("seq_error_then_plain_call", `testing.call_subroutine("deny"); assert.error(403); testing.call_subroutine("normalize"); assert.not_error();`),
+		vt("seq_stale_state_is_not_current", `set req.http.Bypass = "1"; testing.call_subroutine("decide_pass"); testing.call_subroutine("normalize"); assert.state(pass);`, "RECV=fail"),
+		vt("seq_plain_then_pass", `set req.http.Bypass = "1"; testing.call_subroutine("normalize"); testing.call_subroutine("decide_pass"); assert.state(pass);`),
+		vt("seq_recv_then_plain", `testing.call_subroutine("vcl_recv"); assert.state(lookup); testing.call_subroutine("normalize"); assert.not_state(lookup);`),
+		vt("seq_error_twice", `testing.call_subroutine("deny"); testing.call_subroutine("deny"); assert.error(403, "Forbidden");`),
+		vt("seq_called_counts", `testing.call_subroutine("vcl_recv"); testing.call_subroutine("vcl_recv"); assert.subroutine_called("helper", 2); assert.subroutine_called("helper");`),
+		// assert.is_json operands
+		vt("json_object", `assert.is_json("{%22a%22: [1, 2, {%22b%22: null}]}");`),
+		vt("json_scalar", `assert.is_json("12"); assert.is_json("true"); assert.is_json("%22s%22");`),
+		vt("json_trailing_text", `assert.is_json("[1,2] and some text");`, "RECV=fail"),
+		vt("json_two_values", `assert.is_json("[1][2]");`, "RECV=fail"),
+		vt("json_extra_bracket", `assert.is_json("[1,2]]");`, "RECV=fail"),
+		vt("json_empty", `assert.is_json("");`, "RECV=fail"),
+		vt("json_truncated", `assert.is_json("{%22a%22: ");`, "RECV=fail"),
+		vt("json_single_quotes", `assert.is_json("{'a': 1}");`, "RECV=fail"),
+		// constructs that the coverage instrumentation rewrites (the file runs with and without --coverage)
+		vt("cov_switch_nodefault_unmatched", `set req.http.Kind = "z"; testing.call_subroutine("sw_nodefault"); assert.equal(req.http.Out, "init"); assert.equal(req.http.Done, "1");`),
+		vt("cov_switch_nodefault_matched", `set req.http.Kind = "b"; testing.call_subroutine("sw_nodefault"); assert.equal(req.http.Out, "B"); assert.equal(req.http.Done, "1");`),
+		vt("cov_switch_nodefault_notset", `testing.call_subroutine("sw_nodefault"); assert.equal(req.http.Done, "1");`),
+		vt("cov_switch_fallthrough", `set req.http.Kind = "a"; testing.call_subroutine("sw_fall"); assert.equal(req.http.Out, "AB");`),
+		vt("cov_switch_default", `set req.http.Kind = "q"; testing.call_subroutine("sw_fall"); assert.equal(req.http.Out, "D");`),
+		vt("cov_nested_if_no_branch", `set req.http.Kind = "q"; testing.call_subroutine("nested_if"); assert.is_notset(req.http.Out); assert.equal(req.http.Done, "1");`),
+		vt("cov_nested_if_inner_else", `set req.http.Kind = "a"; testing.call_subroutine("nested_if"); assert.equal(req.http.Out, "a");`),
+	}
+	// multi-scope tests: one result entry per scope, whatever happens in the other scopes
+	ts = append(ts,
+		vtest{"ms_scope_dependent", "// @scope: recv,deliver", `set req.http.Seen = resp.status; assert.equal(req.http.Seen, "200");`, []string{"RECV=fail", "DELIVER=pass"}},
+		vtest{"ms_error_everywhere", "// @scope: recv,fetch", `set req.http.X = no.such.variable;`, []string{"RECV=fail", "FETCH=fail"}},
+		vtest{"ms_error_in_last", "// @scope: deliver,recv", `set req.http.Seen = resp.status;`, []string{"DELIVER=pass", "RECV=fail"}},
+		vtest{"ms_three_scopes_middle_fails", "// @scope: recv,fetch,deliver", `set req.http.T = beresp.ttl;`, []string{"RECV=fail", "FETCH=pass", "DELIVER=fail"}},
+		vtest{"ms_assertion_fails_in_first", "// @scope: recv, deliver", `assert.is_notset(req.http.Never); assert.equal(req.http.Host, "nope");`, []string{"RECV=fail", "DELIVER=fail"}},
+		vtest{"ms_all_pass", "// @scope: recv,fetch,deliver", `assert.true(true);`, []string{"RECV=pass", "FETCH=pass", "DELIVER=pass"}},
+		vtest{"ms_skipped", "// @scope: recv,deliver\n// @skip", `assert.true(false);`, []string{"RECV=skip", "DELIVER=skip"}},
+	)
+	return ts
+}
+
+func renderVTests(ts []vtest, prelude string) string {
+	var sb strings.Builder
+	sb.WriteString(prelude)
+	for _, t := range ts {
+		sb.WriteString(t.ann + "\nsub test_" + t.name + " {\n  " + t.body + "\n}\n\n")
+	}
+	return sb.String()
+}
+
+// checkVTests runs the file and compares every (test, scope) verdict; tag names the run for the key.
+func checkVTests(oc *fw.Outcome, ts []vtest, prelude, tag string, args ...string) bool {
+	files := map[string]string{"main.vcl": vMain, "main.test.vcl": renderVTests(ts, prelude)}
+	rr := falcoDir(files, append([]string{"-json"}, args...)...)
+	oc.Evals++
+	detail := map[string]any{"files": files, "args": args, "exit": rr.exit, "stdout": clip(rr.stdout, 6000), "stderr": clip(rr.stderr, 2000)}
+	if rr.crashed || rr.timedOut {
+		oc.Violate("verdicts:crash/"+tag, "falco test crashed or hung: "+clip(rr.stderr, 300), detail)
+		return false
+	}
+	if err := rr.parseJSON(); err != nil {
+		oc.Violate("verdicts:json-unparseable/"+tag, "falco test -json did not print a JSON document ("+err.Error()+"); stderr: "+clip(rr.stderr, 300), detail)
+		return false
+	}
+	got := map[string][]string{}
+	for _, e := range rr.entries {
+		got[e.Name] = append(got[e.Name], strings.ToUpper(e.Scope)+"="+coarse(classify(e)))
+	}
+	ok := true
+	anyFail := false
+	for _, t := range ts {
+		g := append([]string{}, got["test_"+t.name]...)
+		w := append([]string{}, t.want...)
+		for _, x := range w {
+			if strings.HasSuffix(x, "=fail") {
+				anyFail = true
+			}
+		}
+		sort.Strings(g)
+		sort.Strings(w)
+		oc.Evals++
+		if strings.Join(g, " ") != strings.Join(w, " ") {
+			ok = false
+			fam := strings.SplitN(t.name, "_", 2)[0]
+			oc.Violate("verdicts:"+fam+"/"+t.name+"/"+tag, fmt.Sprintf("test_%s: result entries %v, expected %v (%s)", t.name, g, w, tag), map[string]any{"test": t, "args": args, "entries": got["test_"+t.name], "stderr": clip(rr.stderr, 600)})
+			continue
+		}
+		oc.Tag("verdicts:" + strings.SplitN(t.name, "_", 2)[0])
+		oc.NonTrivialS(t.name + tag)
+	}
+	if (rr.exit != 0) != anyFail {
+		oc.Violate("verdicts:exit/"+tag, fmt.Sprintf("exit status %d with failed tests expected=%v", rr.exit, anyFail), detail)
+	}
+	return ok
+}
+
+type isoPair struct {
+	name, prelude, a, b string
+}
+
+func isoPairs() []isoPair {
+	return []isoPair{
+		{"table_merge_then_set", "table overrides { \"color\": \"blue\", }\n",
+			`testing.table_merge(dict, overrides); testing.table_set(dict, "color", "green"); testing.call_subroutine("vcl_recv"); assert.equal(req.http.Color, "green");`,
+			`testing.table_merge(dict, overrides); testing.call_subroutine("vcl_recv"); assert.equal(req.http.Color, "blue");`},
+		{"table_set_main_key", "",
+			`testing.table_set(dict, "shape", "round"); testing.call_subroutine("vcl_recv"); assert.equal(req.http.Shape, "round");`,
+			`testing.call_subroutine("vcl_recv"); assert.equal(req.http.Shape, "square");`},
+		{"table_set_new_key", "",
+			`testing.table_set(dict, "color", "red"); testing.call_subroutine("vcl_recv"); assert.equal(req.http.Color, "red");`,
+			`testing.call_subroutine("vcl_recv"); assert.equal(req.http.Color, "none");`},
+		{"mock_not_restored", "sub mock_helper { set req.http.Helper = \"mocked\"; }\n",
+			`testing.mock("helper", "mock_helper"); testing.call_subroutine("vcl_recv"); assert.equal(req.http.Helper, "mocked");`,
+			`testing.call_subroutine("vcl_recv"); assert.equal(req.http.Helper, "called");`},
+		{"inject_variable", "",
+			`testing.inject_variable("client.geo.city", "tokyo"); assert.equal(client.geo.city, "tokyo");`,
+			`assert.not_equal(client.geo.city, "tokyo");`},
+		{"request_header", "",
+			`set req.http.X-Debug = "1"; set req.http.Host = "a.example.com"; assert.equal(req.http.X-Debug, "1");`,
+			`assert.is_notset(req.http.X-Debug); assert.not_equal(req.http.Host, "a.example.com");`},
+		{"call_counts", "",
+			`testing.call_subroutine("vcl_recv"); testing.call_subroutine("vcl_recv"); assert.subroutine_called("helper", 2);`,
+			`testing.call_subroutine("vcl_recv"); assert.subroutine_called("helper", 1);`},
+		{"state_and_error", "",
+			`testing.call_subroutine("deny"); assert.error(403);`,
+			`assert.not_error(); testing.call_subroutine("normalize"); assert.not_error();`},
+		{"table_merge_other", "table overrides { \"k\": \"changed\", \"extra\": \"e\", }\n",
+			`testing.table_merge(other_dict, overrides); assert.equal(table.lookup(other_dict, "k"), "changed"); assert.equal(table.lookup(other_dict, "extra"), "e");`,
+			`assert.equal(table.lookup(other_dict, "k"), "v"); assert.equal(table.lookup(other_dict, "extra", "none"), "none");`},
+	}
+}
+
+func runVerdicts(oc *fw.Outcome) {
+	ts := verdictTests()
+	// every test alone is not affordable; the whole file, its reversal, and both under --coverage
+	rev := make([]vtest, len(ts))
+	for i := range ts {
+		rev[len(ts)-1-i] = ts[i]
+	}
+	checkVTests(oc, ts, "", "file-order")
+	checkVTests(oc, rev, "", "reversed")
+	checkVTests(oc, ts, "", "file-order+coverage", "--coverage")
+	checkVTests(oc, rev, "", "reversed+coverage", "--coverage")
+	for _, p := range isoPairs() {
+		a := vt("iso_"+p.name+"_a", p.a)
+		b := vt("iso_"+p.name+"_b", p.b)
+		for _, ord := range []struct {
+			tag string
+			ts  []vtest
+		}{{"a-then-b", []vtest{a, b}}, {"b-then-a", []vtest{b, a}}, {"b-alone", []vtest{b}}, {"a-then-b-then-b", []vtest{a, b, vt("iso_"+p.name+"_b2", p.b)}}} {
+			checkVTests(oc, ord.ts, p.prelude, "iso:"+p.name+"/"+ord.tag)
+		}
 	}
 }
